@@ -107,7 +107,12 @@ def search2(skip_known=True):
     bods = [("if", ("and", A, B), ("ret", "str"), ("if", A, ("ret", "bytes"), ("ret", "int"))),
             ("if", ("or", A, B), ("if", A, ("ret", "bytes"), ("ret", "int")), ("ret", "str")),
             ("if", ("and", A, B), ("ret", "str"), ("if", B, ("ret", "bytes"), ("ret", "int"))),
-            ("if", ("or", ("not", A), B), ("if", B, ("ret", "float"), ("ret", "int")), ("ret", "str"))]
+            ("if", ("or", ("not", A), B), ("if", B, ("ret", "float"), ("ret", "int")), ("ret", "str")),
+            # two operands of one `and` on the SAME parameter: the second is evaluated on what the first left, and the body sees only the members that passed both
+            ("if", ("and", A, ("not", ("oftype", "a", "bytes"))), ("if", ("oftype", "a", "str"), ("ret", "bytes"), ("ret", "float")), ("ret", "int")),
+            ("if", ("and", ("not", ("oftype", "b", "bytes")), B), ("if", ("oftype", "b", "int"), ("ret", "bytes"), ("ret", "float")), ("ret", "int")),
+            ("if", ("and", A, ("not", A)), ("if", ("oftype", "a", "str"), ("ret", "bytes"), ("ret", "float")), ("ret", "int")),
+            ("if", ("and", B, ("oftype", "b", "int")), ("ret", "bytes"), ("if", B, ("ret", "float"), ("ret", "int")))]
 
     def val(c, env):
         k = c[0]
@@ -172,6 +177,13 @@ def search2(skip_known=True):
                 "def strict(x: object) -> object:\n    return x\ndef use(ai: Union[Any, int], si: Union[str, int], a: Any) -> None:\n    reveal_type(strict(ai))\n    reveal_type(strict(si))\n    reveal_type(strict(a))\n")
     res = check_code(code_any)
     rv = [re.search(r"'(.*)'", f["description"]).group(1) for f in sorted(res, key=lambda f: f["lineno"]) if f["code"].name == "reveal_type"]
+    code_any2 = ("from typing import Any, Union\nfrom typing_extensions import Literal\nfrom pyanalyze.extensions import evaluated, is_of_type\n@evaluated\ndef strict2(x: object):\n    if is_of_type(x, Literal['r', 'w']):\n        return str\n    else:\n        return int\n"
+                 "def strict2(x: object) -> object:\n    return x\n@evaluated\ndef lax2(x: object):\n    if is_of_type(x, Literal['r', 'w'], exclude_any=False):\n        return str\n    else:\n        return int\n"
+                 "def lax2(x: object) -> object:\n    return x\ndef use(a: Any) -> None:\n    reveal_type(strict2(a))\n    reveal_type(strict2('r'))\n    reveal_type(lax2(a))\n")
+    rv2 = [re.search(r"'(.*)'", f["description"]).group(1) for f in sorted(check_code(code_any2), key=lambda f: f["lineno"]) if f["code"].name == "reveal_type"]
+    if rv2 != ["int", "str", "str"]:
+        return (f"is_of_type(x, Literal['r', 'w']) (a union as the tested type): strict2(Any), strict2('r'), lax2(Any) [exclude_any=False] reveal {rv2}; "
+                f"under the default exclude_any an Any argument matches no tested type: expected ['int', 'str', 'str']")
     if rv != ["int", "str | int", "int"] and rv != ["int", "int | str", "int"]:
         return f"is_of_type under the default exclude_any: strict(Any | int), strict(str | int), strict(Any) reveal {rv}; Any only matches Any, so the expected results are int, str | int, int"
     # UNKNOWN kinds
